@@ -665,6 +665,7 @@ class ConvexPolyhedron(Polyhedron):
         _, principal_axes = np.linalg.eigh(self.inertia_tensor)
         self._vertices = np.dot(self._vertices, principal_axes)
         self._sort_simplices()
+        self._find_equations()
 
     @property
     def mean_curvature(self):
